@@ -39,7 +39,7 @@ func vhIndex(name string) int {
 func c04(args []string) int {
 	run := NewRun("C04", args)
 	g := &rtGen{r: run.R}
-	run.Sum.Rule = "configurations: 1-8 virtual hosts, 0-3 domains each drawn without repetition (95%) from an overlapping pool (exact / mixed case / *.suffix / *suffix / :port / :* / default / IPv6 literal), 2% odd or rejected domains, 3% unrestricted draws (duplicates), 0-6 routes per host mixing prefix / path / regex (+header, method, regex-header matchers), variable (and/or), DSL and RPC rules, 4% of configurations with an unbuildable route; per configuration a battery of requests (Host from a pool with/without port, mixed case, malformed, empty, unset; path; method; 0-3 headers; variables). Each request is looked up with the real MatchRoute and MatchAllRoutes and on a probe table (same domains, one catch-all route per host) that shows which virtual host was selected. A lookup is non-trivial when the configuration was accepted, has >= 2 virtual hosts and the Host value is well formed; distinct by (configuration number, request)."
+	run.Sum.Rule = "configurations: 1-8 virtual hosts, 0-3 domains each drawn without repetition (95%) from an overlapping pool (exact / mixed case / *.suffix / *suffix / :port / :* / default / IPv6 literal), 2% odd or rejected domains, 3% unrestricted draws (duplicates), 0-6 routes per host mixing prefix / path / regex (+header, method, regex-header matchers), variable (and/or), DSL and RPC rules, 4% of configurations with an unbuildable route; per configuration a battery of requests (Host from a pool with/without port, mixed case, malformed, empty, unset; path; method; 0-3 headers; variables). Each request is looked up with the real MatchRoute and MatchAllRoutes and on a probe table (same domains, one catch-all route per host) that shows which virtual host was selected. A lookup is non-trivial when the configuration was accepted and has >= 2 virtual hosts; distinct by (configuration number, request)."
 	ncfg := run.N(260, 2600)
 	nreq := run.N(14, 24)
 	sh := run.NewShard(rtShardHeader, "rt_case", "rt_mismatches")
@@ -122,7 +122,7 @@ func c04(args []string) int {
 				// ---- finder: the documented precedence evaluated directly on the real answers
 				hostVal, hostSet := q.Vars[types.VarHost]
 				want, best, wellFormed := c.specVhost(hostVal)
-				nontrivial := wellFormed && len(c) >= 2
+				nontrivial := len(c) >= 2
 				kind := "host-malformed-or-empty"
 				if wellFormed {
 					kind = fmt.Sprintf("vhost-class=%d", best.class)
@@ -134,10 +134,15 @@ func c04(args []string) int {
 						run.Fail(fmt.Sprintf("c04:vhost-precedence:want-class%d-got-%s", best.class, gotClass),
 							fmt.Sprintf("Host %q: the documented precedence selects virtual host %d (domain %q, class %d, suffix length %d) but virtual host %d was used", hostVal, want, best.domain, best.class, best.slen, a.vh), rep)
 					}
-				} else if a.vh >= 0 && !(hostSet && hostVal != "") {
-					// no Host at all: only a default can apply
-					if w, _, _ := c.specVhost("no-such-host.invalid"); w != a.vh {
-						run.Fail("c04:vhost-without-host", fmt.Sprintf("request without Host used virtual host %d, the default is %d", a.vh, w), rep)
+				} else {
+					// no Host, an empty one, or one that is not host[:port]: no exact or wildcard domain can apply, the default does
+					_ = hostSet
+					if w := c.defaultVhost(); w != a.vh {
+						sig := "c04:vhost-precedence:unusable-host-want-default-got-other"
+						if a.vh < 0 {
+							sig = "c04:vhost-precedence:unusable-host-want-default-got-none"
+						}
+						run.Fail(sig, fmt.Sprintf("Host %q (set=%v) is empty or not host[:port]: only the default virtual host (%d) can apply, but virtual host %d was used", hostVal, hostSet, w, a.vh), rep)
 					}
 				}
 				if a.vh >= 0 {
